@@ -21,4 +21,6 @@ __CPROVER_ensures(__tmcg_thrown == 0 ==> V(res) == POWM(V(m), V(x), V(p)))
 /* operator new / delete of the per-message integers: abstracted (the vectors own their integers in the model) */
 __mpz_struct new_scratch[1];
 #define __verif_new_array(sz, n) ((void *)new_scratch)
+#undef __verif_new_array_zero
+#define __verif_new_array_zero(sz, n) __verif_new_array((sz), (n))
 #define __verif_delete(p) ((void)(p))
